@@ -91,6 +91,22 @@ def conv_calls(tier, rng):
                     d = start + timedelta(seconds=t)
                     r = both(lambda: p.dateToIdx(d))
                     calls.append(dict(op="pd2ix", g=g, span=span, x=t, **r))
+    # instants thousands of years away (an open-ended leave "until 6200-01-01"): more slots than a C int holds.  No value is
+    # claimed for the project-level conversion (py = cy only, C13); the slot table clamps to its last / first index when asked to
+    for g in (60, 3600):
+        start = datetime(2024, 1, 1)
+        p = PJ.Project("p", "P", "1")
+        p["start"] = start
+        p["end"] = start + timedelta(days=7)
+        p.attributes["scheduleGranularity"] = g
+        sb = SB.Scoreboard(start, start + timedelta(hours=6), g, None)
+        for far in (datetime(6200, 1, 1), datetime(9999, 12, 31), datetime(2500, 1, 1)):
+            r = both(lambda: p.dateToIdx(far))
+            calls.append(dict(op="pd2ix", g=g, span=7 * 86400, x=-2, **r))
+            r = both(lambda: sb.dateToIdx(far, True))
+            calls.append(dict(op="d2iclamp", g=g, span=6 * 3600, x=1, **r))
+        r = both(lambda: sb.dateToIdx(datetime(1, 1, 2), True))
+        calls.append(dict(op="d2iclamp", g=g, span=6 * 3600, x=-1, **r))
     # long windows (three years): instants and indices far from the project start -- seconds beyond 2^24 must not lose precision
     for g in (60, 900, 3600) if tier == "quick" else (60, 300, 900, 1800, 3600):
         start = datetime(2024, 1, 1)
